@@ -304,11 +304,19 @@ func (vc *VC) zeroValue(t types.Type) SV {
 	out := SV{L: make([]string, len(ls))}
 	for j, li := range ls {
 		out.L[j] = zeroOfSort(li)
-		if li.Kind == kUninterp {
-			vc.needZero(li.Sort)
-		}
+		vc.ensureZero(li)
 	}
 	return out
+}
+
+func (vc *VC) ensureZero(li leafInfo) {
+	s := li.Sort
+	for strings.HasPrefix(s, "(Array (_ BitVec 64) ") {
+		s = strings.TrimSuffix(strings.TrimPrefix(s, "(Array (_ BitVec 64) "), ")")
+	}
+	if !strings.HasPrefix(s, "(") && s != "Bool" && s != "Int" && s != "Real" {
+		vc.needZero(s)
+	}
 }
 
 func (vc *VC) needZero(sort string) {
@@ -719,9 +727,7 @@ func (vc *VC) alloc(t types.Type, hint string) SV {
 	for j, li := range ls {
 		name, sort := vc.heapOf(lv, j)
 		h := vc.heapGet(name, sort)
-		if li.Kind == kUninterp {
-			vc.needZero(li.Sort)
-		}
+		vc.ensureZero(li)
 		vc.heapSet(name, sort, sto(h, ref, zeroOfSort(li)))
 	}
 	return SV{L: []string{ref}, LV: lv}
@@ -735,9 +741,7 @@ func (vc *VC) initElems(et types.Type, base string) {
 		name := elemHeapName(tk, j)
 		sort := "(Array Int (Array (_ BitVec 64) " + li.Sort + "))"
 		h := vc.heapGet(name, sort)
-		if li.Kind == kUninterp {
-			vc.needZero(li.Sort)
-		}
+		vc.ensureZero(li)
 		vc.heapSet(name, sort, sto(h, base, fmt.Sprintf("((as const (Array (_ BitVec 64) %s)) %s)", li.Sort, zeroOfSort(li))))
 	}
 }
@@ -780,9 +784,7 @@ func (vc *VC) lookup(fr *Frame, x *ssa.Lookup) SV {
 	present := vc.def("Bool", sel(dom, k))
 	out := SV{}
 	for j, li := range mi.VLeaves {
-		if li.Kind == kUninterp {
-			vc.needZero(li.Sort)
-		}
+		vc.ensureZero(li)
 		out.L = append(out.L, vc.def(li.Sort, ite(present, sel(vc.mapVal(mi, ref, j), k), zeroOfSort(li))))
 	}
 	vc.typeFacts(mt.Elem(), out)
